@@ -1,7 +1,7 @@
 (* C02 — facts about the tokenizer and expansion model of TsParse.v. *)
 From Coq Require Import List Bool Arith NArith Lia.
 From Coq.Strings Require Import Byte.
-From GI Require Import Lib.Bytes Gen.TsParseConsts TsParse.TsParse.
+From GI Require Import Lib.Bytes Gen.TsParseConsts TsParse.TsParse TsParse.TsSpec.
 Import ListNotations.
 
 (* [bytes] is used as a plain abbreviation here, so that every implicit type argument is
@@ -330,12 +330,6 @@ Lemma parse_go_cons : forall st c r args arg chunk quoted,
     else parse_go st r args arg (Some (chunk_bytes chunk ++ [c])) quoted.
 Proof. reflexivity. Qed.
 
-(* bytes that neither separate nor quote *)
-Definition word_byte (c : byte) : bool := negb (is_sep c) && negb (beq c ts_quote).
-(* ... and do not start an expansion either *)
-Definition plain_byte (c : byte) : bool := word_byte c && negb (beq c dollar).
-(* separators that do not end the line *)
-Definition blank_byte (c : byte) : bool := is_sep c && negb (is_comment c).
 
 Lemma word_byte_inv : forall c, word_byte c = true -> is_sep c = false /\ beq c ts_quote = false.
 Proof.
@@ -565,11 +559,6 @@ Proof. intros st w H. unfold expand, os_expand. apply expand_go_plain. exact H. 
 Definition plain_word (w : bytes) : Prop := w <> [] /\ forallb plain_byte w = true.
 Definition blank_run (s : bytes) : Prop := forallb blank_byte s = true.
 
-Fixpoint join_runs (ws : list (bytes * bytes)) : bytes :=
-  match ws with
-  | [] => []
-  | (s, w) :: r => s ++ w ++ join_runs r
-  end.
 
 Lemma blank_then_end : forall st t args arg ch,
   blank_run t ->
